@@ -507,6 +507,8 @@ type c04Cfg struct {
 	// Hold: the fault is held back until quiescence: a fault hook blocks where it would fail, a
 	// cancellation / endpoint failure is postponed; at the first quiescence it is released.
 	Hold bool
+	// Progress: Send and Receive get progress callbacks with an overlap / ordering detector
+	Progress bool
 	// SumGate: which files' digest computation (hash.Sum) is gated until their notification
 	SumGate func(path string) bool
 	// Transport 1: util.NewProtoStream over net.Pipe instead of the in-memory channel stream
@@ -528,6 +530,8 @@ type c04Res struct {
 	Quiesced         bool
 	HeldReleased     bool
 	FinS, FinR       bool // a FIN packet was delivered to Send's / Receive's RecvMsg
+	ProgOverlap      int32 // times a progress callback was entered while another call of it was running
+	ProgOOO          int32 // times a progress callback reported a smaller total than an earlier call
 	SumReleased      int
 	Fired            bool
 	Leaks            int
@@ -827,9 +831,30 @@ func c04Run(cfg c04Cfg) (res c04Res) {
 			return nil
 		},
 	}
+	var sendProgress func(int, bool)
+	if cfg.Progress {
+		mk := func() func(int, bool) {
+			var in int32
+			var last int64
+			return func(total int, _ bool) {
+				if atomic.AddInt32(&in, 1) > 1 {
+					atomic.AddInt32(&res.ProgOverlap, 1)
+				}
+				if prev := atomic.SwapInt64(&last, int64(total)); int64(total) < prev {
+					atomic.AddInt32(&res.ProgOOO, 1)
+				}
+				if cfg.Perturb != nil {
+					cfg.Perturb()
+				}
+				atomic.AddInt32(&in, -1)
+			}
+		}
+		sendProgress = mk()
+		opt.ProgressCb = mk()
+	}
 	sdone := make(chan error, 1)
 	rdone := make(chan error, 1)
-	go c04Call(sdone, func() error { return fsutil.Send(ctxS, pair.E[0], mem, nil) })
+	go c04Call(sdone, func() error { return fsutil.Send(ctxS, pair.E[0], mem, sendProgress) })
 	go c04Call(rdone, func() error { return fsutil.Receive(ctxR, pair.E[1], cfg.Dest, opt) })
 
 	res.Send, res.Recv = 2, 2
@@ -1501,7 +1526,11 @@ func c08Digest(dest string) string {
 // callback; the stream scribbles over every DATA payload buffer when the next RecvMsg starts.
 // output: ((send recv dest_equals_view digest (req ids ascending) ((kind path digest_ok) ...)
 //
-//	ov_sender_send ov_sender_recv ov_receiver_send ov_receiver_recv scribbled>0 leaks) ...)
+//	ov_sender_send ov_sender_recv ov_receiver_send ov_receiver_recv scribbled>0 leaks
+//	progress_overlaps progress_out_of_order) ...)
+//
+// Send and Receive are given progress callbacks that count overlapping invocations and totals
+// that go backwards.
 func run0801(in Sx) (out Sx) {
 	defer func() {
 		if r := recover(); r != nil {
@@ -1569,7 +1598,7 @@ func run0801(in Sx) (out Sx) {
 		}
 		// every fourth schedule: the source Opens are held until the sender's listing is complete
 		// (the walker runs ahead of the data, bounded stream)
-		res := c04Run(c04Cfg{View: view, Dest: dest, Cap: capacity, Chunk: chunk, Scribble: true, Perturb: perturb, Stall: -1, SumGate: sumGate, OpenGate: s%4 == 2})
+		res := c04Run(c04Cfg{View: view, Dest: dest, Cap: capacity, Chunk: chunk, Scribble: true, Perturb: perturb, Stall: -1, SumGate: sumGate, OpenGate: s%4 == 2, Progress: true})
 		eq := !res.Hung && len(c04DestDiff(view, dest)) == 0
 		dg := ""
 		if !res.Hung {
@@ -1592,7 +1621,7 @@ func run0801(in Sx) (out Sx) {
 		}
 		recs = append(recs, L(NI(res.Send), NI(res.Recv), Bool(eq), S(dg), L(idsx...), L(ns...),
 			N(uint64(res.Ov[0])), N(uint64(res.Ov[1])), N(uint64(res.Ov[2])), N(uint64(res.Ov[3])),
-			Bool(res.Scribbled > 0), NI(res.Leaks)))
+			Bool(res.Scribbled > 0), NI(res.Leaks), N(uint64(res.ProgOverlap)), N(uint64(res.ProgOOO))))
 		os.RemoveAll(work)
 	}
 	return L(recs...)
